@@ -189,7 +189,7 @@ def match_finding(findings, pid, v):
 # replay files
 
 def write_replay(pid, root_seed, index, tier, case, res, extra=None):
-    d = os.path.join(core.VERIF, "replays")
+    d = os.environ.get("GSIM_REPLAY_DIR") or os.path.join(core.VERIF, "replays")
     os.makedirs(d, exist_ok=True)
     path = os.path.join(d, f"{pid}-{root_seed}-{index}.json")
     doc = {"property": pid, "kind": res["violation"]["kind"], "site": res["violation"]["site"],
